@@ -9,7 +9,9 @@
 EXTENDS Context, Json, SequencesExt
 
 CONSTANTS Full,       \* TRUE: the whole call universe (thorough); FALSE: the quick subset
-          Emit        \* TRUE: print every quiescent state with its outgoing transitions as JSON
+          Emit,       \* TRUE: print every quiescent state with its outgoing transitions as JSON
+          Help        \* TRUE: the separate HELP universe (help requests for callable-typed arguments, then values of those
+                      \* types through every entry point); Full then selects its larger variant
 
 Roots == {"A", "B"}
 Names == {"A", "A.a", "A.b", "B"}
@@ -19,7 +21,7 @@ DumpDK == "skip_none=True,skip_validation=False"
 
 O(id, m, p, kw, tag, items, sub, sitems, pre, sel, dumpf, late, ser) ==
   [id |-> id, m |-> m, p |-> p, eoe |-> (p = "B"), kw |-> kw, tag |-> tag, stag |-> tag, items |-> items, sub |-> sub, sitems |-> sitems,
-   pre |-> pre, sel |-> sel, dumpf |-> dumpf, late |-> late, ser |-> ser, dkv |-> DumpDK, spec |-> "none", file |-> "-"]
+   pre |-> pre, sel |-> sel, dumpf |-> dumpf, late |-> late, ser |-> ser, dkv |-> DumpDK, spec |-> "none", file |-> "-", hscope |-> "shared", hset |-> "-", hkey |-> "any"]
 PA(id, p, kw, items, sub, sitems) ==      \* parse_args; tag: coarse code of the argv (one code: finer codes only multiply Alg-level states; the traces use the real argv text)
   O(id, "parse_args", p, kw, "r", items, sub, sitems, "ok", sub, "none", "ok", FALSE)
 PO(id, m, p, pre, sel, dumpf, late) == O(id, m, p, "-", "-", << >>, "none", << >>, pre, sel, dumpf, late, FALSE)
@@ -112,7 +114,37 @@ MoreOps == {
   NP("A:instantiate-bad", "instantiate_classes", "A", "fail", FALSE),
   PO("B:obj-unknown",     "parse_object", "B", "ok", "none", "error", "fail")
 }
-Ops == IF Full THEN QuickOps \cup MoreOps ELSE QuickOps
+\* ---- the HELP universe: parser B owns --cb: Callable[[int], Base], --cbe: Callable[..., Base],
+\* --cbo: Optional[Callable[[int, float], Base]] (added with add_argument: their help actions use the CLASS-level dict) and the
+\* class group `hold` whose parameters mk: Callable[[int], Base] and opt: Optional[Callable[[int, float], Base]] have help
+\* actions with a dict of their own; --cls.help (both parsers) is a class-typed help that uses the class-level dict
+HP(id, p, hscope, hset, hkey) == [PA(id, p, DefKW, <<"clshelp">>, "none", << >>) EXCEPT !.hscope = hscope, !.hset = hset, !.hkey = hkey]
+HelpOps == {
+  HP("B:help-cb",         "B", "shared", "1", "any"),                             \* --cb.help <Class> / --cbe.help <Class>
+  HP("B:help-cbo",        "B", "shared", "2", "cbo"),                             \* --cbo.help <Class>: two parameters supplied by the caller
+  HP("B:help-mk",         "B", "own1", "1", "hold.mk"),                           \* --hold.mk.help <Class>: a class parameter
+  HP("B:help-cls",        "B", "shared", "-", "cls"),                             \* --cls.help <Class>: reads what the others left (HelpSkipResidue)
+  PA("B:cbv",             "B", DefKW, <<"cbv">>, "none", << >>),                  \* a value of a callable type (class_path / init_args / nested keys)
+  PA("B:cbv,pc",          "B", DefKW, <<"cbv", "pc">>, "none", << >>),            \* --print_config after the value: the dump of the parse
+  [PA("B:cbv-cb-maker", "B", DefKW, <<"cbv">>, "none", << >>) EXCEPT !.hkey = "cb:maker"],         \* the value is a class whose INSTANCES are callable: the caller supplies
+  [PA("B:cbv-mk-maker", "B", DefKW, <<"cbv">>, "none", << >>) EXCEPT !.hkey = "hold.mk:maker"],   \*   none of its parameters, nothing may be skipped (argument / class parameter)
+  [PO("B:obj-cb", "parse_object", "B", "ok", "none", "none", "ok") EXCEPT !.spec = "cb"],
+  [PO("B:str-cb", "parse_string", "B", "ok", "none", "none", "ok") EXCEPT !.spec = "cb"],
+  [NP("B:dump",           "dump", "B", "ok", TRUE) EXCEPT !.spec = "cb"],         \* dump / instantiate_classes of a configuration that holds such values
+  [NP("B:instantiate",    "instantiate_classes", "B", "ok", FALSE) EXCEPT !.spec = "cb"],
+  NP("B:defaults",        "get_defaults", "B", "ok", FALSE)
+}
+HelpMoreOps == {
+  HP("B:help-opt",        "B", "own2", "2", "hold.opt"),
+  HP("A:clshelp",         "A", "shared", "-", "cls"),                             \* the class-level dict is process-wide: another parser's class help
+  [PO("B:env-cb", "parse_env", "B", "ok", "none", "none", "ok") EXCEPT !.spec = "cb"],
+  [PA("B:cbv,help-cb", "B", DefKW, <<"cbv", "clshelp">>, "none", << >>) EXCEPT !.hscope = "shared", !.hset = "1", !.hkey = "cb"],   \* a value, then the help request
+  NP("B:format_help",     "format_help", "B", "ok", FALSE),
+  PA("B:[]",              "B", DefKW, << >>, "none", << >>),
+  PA("A:ok",              "A", DefKW, <<"ok">>, "none", << >>)
+}
+Ops == IF Help THEN (IF Full THEN HelpOps \cup HelpMoreOps ELSE HelpOps)
+       ELSE IF Full THEN QuickOps \cup MoreOps ELSE QuickOps
 
 VARIABLE st
 Init == st = Idle(Res0(Roots, Names))
@@ -134,7 +166,18 @@ NoStaleRead == ~st.stale
 AlgIsRefOnFresh == Quiescent => \A o \in Ops : AlgOutcome(o, Res0(Roots, Names)) = RefOutcome(o)
 \* C09, design level.  On the pinned tree it holds outside the named deviation; with the repair it holds everywhere.
 HistoryIndependent ==
-  Quiescent => \A o \in Ops : ((ClearOnError \/ ~PendingResidue(o, st.res)) /\ ~ShtabResidue(o, st.res)) => AlgOutcome(o, st.res) = RefOutcome(o)
+  Quiescent => \A o \in Ops : ((ClearOnError \/ ~PendingResidue(o, st.res)) /\ ~ShtabResidue(o, st.res) /\ ~HelpSkipResidue(o, st.res))
+                                   => (AlgOutcome(o, st.res) = RefOutcome(o) /\ ~AlgRun(o, st.res).dev)
+\* the third named deviation is exactly this wide: a class help of a CLASS-typed argument whose help action uses a dict in which
+\* an earlier help request for a callable type left skip = {k}; the answer class stays "help printed, exit 0"; the residue is never
+\* read by anything else (a help request for a callable type overwrites it first; parse / dump / instantiate use the argument's own dict)
+HelpSkipShape ==
+  Quiescent => \A o \in Ops : LET r == AlgRun(o, st.res) IN
+                 /\ r.dev <=> (HelpSkipResidue(o, st.res) /\ ~ShtabResidue(o, st.res))
+                 /\ r.dev => (r.out = RefOutcome(o) /\ r.res.hskip = st.res.hskip)
+\* what a help request leaves is a function of the help requests made so far alone, never of parses, dumps ... (only they write it)
+HelpSkipWrittenByHelpOnly ==
+  Quiescent => \A o \in Ops : (AlgRun(o, st.res).res.hskip # st.res.hskip) => (ReachesClsHelp(o) /\ o.hset # "-")
 \* the second named deviation is exactly this wide: after --print_shtab=<shell> every parse_args on that root parser fails
 \* (and, on a parser with a class-typed default, every call that computes the defaults); no other parser is affected
 ShtabShape ==
@@ -152,13 +195,13 @@ PendingIsLocal == \A p \in Roots : st.res.pending[p] # "none" => st.res.args[p] 
 
 --------------------------------------------------------------------------------
 NameSeq == <<"A", "A.a", "A.b", "B">>
-ResKey(r) == r.pending["A"] \o "|" \o r.pending["B"] \o "|" \o r.args["A"] \o r.args["A.a"] \o r.args["A.b"] \o r.args["B"]
+ResKey(r) == r.hskip["shared"] \o "," \o r.hskip["own1"] \o "," \o r.hskip["own2"] \o "|" \o r.pending["A"] \o "|" \o r.pending["B"] \o "|" \o r.args["A"] \o r.args["A.a"] \o r.args["A.b"] \o r.args["B"]
              \o "|" \o r.shtab["A"] \o "," \o r.shtab["B"] \o "|" \o r.dcf["A"] \o "," \o r.dcf["B"] \o "|" \o r.pk \o "|" \o r.sap \o "|" \o r.dk
 OpSeq == SetToSeq(Ops)
 EmitState ==
   (Emit /\ Quiescent) =>
     PrintT(ToJson([key |-> ResKey(st.res), res |-> st.res,
                    t |-> [i \in 1..Len(OpSeq) |-> LET r == AlgRun(OpSeq[i], st.res) IN
-                            <<OpSeq[i].id, ResKey(r.res), r.out, RefOutcome(OpSeq[i])>>]]))
+                            <<OpSeq[i].id, ResKey(r.res), r.out, RefOutcome(OpSeq[i]), IF r.dev THEN "dev" ELSE "-">>]]))
 ASSUME Emit => PrintT(ToJson([ops |-> OpSeq]))
 =============================================================================
